@@ -158,7 +158,7 @@ fn gen_count(tier: &str, rng: &mut Rng, out: &mut Vec<String>) {
     out.push("c14n 300 65535 65535 1 7,299 0,1,2,299,300,301,65534".to_string());
     // boundary cluster sizes (u8 truncation at 256, ArrayVec capacity 12)
     let big_ns: &[usize] = &[9, 11, 12, 13, 14, 16, 17, 31, 64, 128, 254, 255, 256, 257, 258, 299, 300];
-    let per_n = if thorough { 60 } else { 9 };
+    let per_n = if thorough { 30 } else { 9 };
     for &n in big_ns {
         let mut bigp = 0;
         for _ in 0..per_n {
@@ -176,7 +176,7 @@ fn gen_count(tier: &str, rng: &mut Rng, out: &mut Vec<String>) {
             // large P only a few times per cluster size and with a small rf; B = 65535 not together with a huge rf
             if p > 2048 {
                 bigp += 1;
-                if !thorough || bigp > 2 { p = 1 + p % 2048; } else { rf = 1 + rf % 3; }
+                if !thorough || bigp > 1 { p = 1 + p % 2048; } else { rf = 1 + rf % 3; }
             }
             if b > 4096 && rf > 12 { b = 1 + b % 4096; }
             let a = rng.below(n as u64);
